@@ -1,6 +1,7 @@
 import XMT.Drv.Util
 import XMT.Drv.C01
 import XMT.Frag
+import XMT.FragSend
 namespace XMT.Drv.C02
 open XMT XMT.Drv XMT.Frag
 
@@ -30,6 +31,46 @@ def recvSeq (fs : Frags) : List String → Option (Frags × List String)
       let rs ← recvSeq r.1 ts
       some (rs.1, showOut r.2 :: rs.2)
 
+/-- round s3: as `recvSeq`, every answer followed by `@` and the reassembly state after the event
+(arrivals with repetitions, wake-ups in any number) -/
+def recvSeqS (fs : Frags) : List String → Option (List String)
+  | [] => some []
+  | t :: ts =>
+    if t = "sweep" then do
+      let rs ← recvSeqS (sweep fs) ts
+      some (("swept@" ++ showGroups (sweep fs)) :: rs)
+    else do
+      let p ← XMT.Drv.C01.parsePkt t
+      let r := recvFrag fs p
+      let rs ← recvSeqS r.1 ts
+      some ((showOut r.2 ++ "@" ++ showGroups r.1) :: rs)
+
+/-- round s3: fill a send channel of capacity `cap` — a plain token is a packet handed to `queue`,
+`W w g j pkt` a packet larger than the fragment limit handed to `write(w, pkt)` (g, j: the group and
+Job numbers the implementation drew) -/
+def buildQ (cap : Nat) (uuid : Bytes) (F : Nat) : List Pkt → List String → Option (List Pkt × List String)
+  | q, [] => some (q, [])
+  | q, "W" :: w :: g :: j :: p :: rest => do
+    let w ← natOf w
+    let g ← natOf g
+    let j ← natOf j
+    let p ← XMT.Drv.C01.parsePkt p
+    match writeBig (w != 0) cap uuid F q p g j with
+    | none => do
+      let r ← buildQ cap uuid F q rest
+      some (r.1, "full" :: r.2)
+    | some q' => do
+      let r ← buildQ cap uuid F q' rest
+      some (r.1, s!"queued{q'.length - q.length}" :: r.2)
+  | q, t :: rest => do
+    let p ← XMT.Drv.C01.parsePkt t
+    buildQ cap uuid F (enqueue cap uuid q p) rest
+
+def showLeaves (o : Pkt) : String :=
+  match XMT.Batch.unpack 8 o with
+  | .ok ps => if ps.isEmpty then "." else " ".intercalate (ps.map XMT.Drv.C01.showPkt)
+  | .error _ => "unpack-error"
+
 def handle (args : List String) : String :=
   match args with
   | ["split", f, g, j, p] =>
@@ -41,6 +82,19 @@ def handle (args : List String) : String :=
     match recvSeq [] toks with
     | none => "bad-op"
     | some (fs, outs) => " ".intercalate outs ++ " groups=" ++ showGroups fs
+  | "recvs" :: toks =>
+    match recvSeqS [] toks with
+    | none => "bad-op"
+    | some outs => " ".intercalate outs
+  | "sendorder" :: pk :: f :: cap :: dev :: uuid :: toks =>
+    match natOf pk, natOf f, natOf cap, ofHex dev, ofHex uuid with
+    | some pk, some f, some cap, some dev, some uuid =>
+      match buildQ cap uuid f [] toks with
+      | none => "bad-op"
+      | some (q, ws) =>
+        let txs := XMT.Batch.drain pk f dev (q.length + 5) { q := q, peek := none, last := 0 }
+        " ".intercalate ws ++ " => " ++ " | ".intercalate (txs.map showLeaves)
+    | _, _, _, _, _ => "bad-op"
   | _ => "bad-op"
 
 end XMT.Drv.C02
